@@ -1,16 +1,21 @@
 #!/bin/bash
-# usage: try_seed.sh <patch.diff> [props...]  -- applies the change to /repo, runs the quick checks, undoes it
+# usage: try_seed.sh <ABSOLUTE patch.diff> [props...]  -- applies the change to /repo, runs the quick checks (in parallel), undoes it
 patch=$1; shift
 props=${@:-C01 C02 C03 C04 C05 C06 C07 C08 C09 C10 C11 C13 C14 C15 C16 C17 C18 C19 C20}
-cd /repo && git apply $patch || { echo "patch does not apply"; exit 2; }
+case $patch in /*) ;; *) echo "need an absolute patch path"; exit 2;; esac
+( cd /repo && git apply $patch ) || { echo "patch does not apply"; exit 2; }
 cd /verif
+out=$(mktemp -d /tmp/tryseed.XXXXXX)
+first=$(echo $props | cut -d' ' -f1)
+./check $first --tier quick > $out/$first.log 2>&1     # warms the fact cache once
+echo $props | tr ' ' '\n' | grep -v "^$first$" | xargs -P 9 -I{} sh -c "VERIF_BUDGET_S=400 ./check {} --tier quick > $out/{}.log 2>&1"
+git -C /repo checkout -- .
 hits=""
 for p in $props; do
-  out=$(./check $p --tier quick 2>&1)
-  if echo "$out" | grep -q "^VIOLATION"; then
+  if grep -q "^VIOLATION" $out/$p.log; then
     hits="$hits $p"
-    echo "$out" | grep -E "^  - " | head -2 | cut -c1-260
+    grep -E "^  - " $out/$p.log | head -2 | cut -c1-260
   fi
 done
-git -C /repo checkout -- .
+rm -rf $out
 echo "CAUGHT BY:$hits"
